@@ -46,6 +46,14 @@ def fold(run, cases, results):
     slow = []
     for r in results:
         c = cases[r["index"]]
+        if getattr(c, "expect", "vjp") == "refute":
+            run.canaries["run"] += 1
+            if r["failures"] and not r["errors"]:
+                run.canaries["refuted"] += 1
+            else:
+                run.error("canary %s was NOT refuted (failures=%d undecided=%d errors=%s): the checker is vacuous or unsound"
+                          % (r["name"], len(r["failures"]), len(r["undecided"]), r["errors"][:1]))
+            continue
         run.configs += 1
         run.obligations += r["obligations"]
         run.discharged += r["discharged"]
